@@ -98,6 +98,32 @@ def run_raw_mode(env, sh):
     env.check(K.live_heap() == [], 'every allocation is released')
 
 
+def run_raw_mode_seg(env, sh):
+    """the C streaming state across calls: feed(S1); feed(S2) == mode(S1 || S2), every cut"""
+    P = env.P
+    mode, bl, dec = sh['mode'], sh['bl'], sh.get('dec', False)
+    K = kern.kernel(env, 'raw_%s.c' % mode)
+    cname = 'AES' if bl == 16 else 'DES'
+    key = env.bytes('key', 16 if bl == 16 else 8)
+    cipher = K.block_cipher(cname, key, bl)
+    slot, iv, r = _mode_start(env, K, mode, cipher, bl, sh)
+    env.check(r == 0, 'start succeeds')
+    st = K.deref(slot)
+    parts = [env.bytes('s%d' % i, n) for i, n in enumerate(sh['segs'])]
+    outs = []
+    fname = mode.upper() + ('_decrypt' if dec else '_encrypt')
+    for i, part in enumerate(parts):
+        po = K.out(len(part), 'out%d' % i)
+        env.check(K.call(fname, st, K.buf(part, False, 'in%d' % i), po, len(part)) == 0, 'call %d succeeds' % i)
+        outs.append(K.read(po, len(part)))
+    K.check_memory_safe()
+    whole = P.concat(*parts) if parts else P.const(b"")
+    got = P.concat(*outs) if outs else P.const(b"")
+    env.check(got == _ref_mode(P, mode, cname, key, iv, whole, dec, sh), 'concatenated outputs == mode applied to the concatenated input')
+    K.call(mode.upper() + '_stop_operation', st)
+    env.check(K.live_heap() == [], 'every allocation is released')
+
+
 def run_strxor(env, sh):
     K = kern.kernel(env, 'strxor.c')
     n = sh['n']
@@ -151,7 +177,7 @@ def run_chacha(env, sh):
     env.check(K.live_heap() == [], 'destroy releases the state')
 
 
-OWN = dict(raw_mode=Harness('raw_mode', run_raw_mode), strxor=Harness('strxor', run_strxor), chacha=Harness('chacha', run_chacha))
+OWN = dict(raw_mode=Harness('raw_mode', run_raw_mode), raw_mode_seg=Harness('raw_mode_seg', run_raw_mode_seg), strxor=Harness('strxor', run_strxor), chacha=Harness('chacha', run_chacha))
 HARNESSES = dict(OWN)
 HARNESSES.update(c03.HARNESSES)
 HARNESSES.update({k: v for k, v in c07.HARNESSES.items() if k in ('pkcs1_decode', 'oaep_decode')})
@@ -184,6 +210,23 @@ def own_shapes(tier):
             if mode == 'cfb':
                 jobs.append(('raw_mode', dict(mode=mode, bl=bl, n=bl, seg=0)))
                 jobs.append(('raw_mode', dict(mode=mode, bl=bl, n=bl, seg=bl + 1)))
+    for mode in ('cfb', 'ofb', 'cbc'):
+        for bl in (16, 8):
+            total = 2 * bl + 1 if mode != 'cbc' else 3 * bl
+            cuts = range(0, total + 1) if th else (0, 1, bl - 1, bl, bl + 1, 2 * bl)
+            for seg in (([1, bl // 2, bl] if th else [bl // 2]) if mode == 'cfb' else [None]):
+                for cut in cuts:
+                    if mode == 'cbc' and cut % bl:
+                        continue
+                    for dec in (False, True):
+                        sh = dict(mode=mode, bl=bl, segs=[cut, total - cut], dec=dec)
+                        if seg:
+                            sh['seg'] = seg
+                        jobs.append(('raw_mode_seg', sh))
+                sh = dict(mode=mode, bl=bl, segs=[bl, 0, bl] if mode == 'cbc' else [1, 0, bl, 3], dec=False)
+                if seg:
+                    sh['seg'] = seg
+                jobs.append(('raw_mode_seg', sh))
     for n in ((0, 1, 15, 16, 17, 32, 33, 48) if th else (0, 1, 16, 17, 33)):
         for dec in (False, True):
             jobs.append(('raw_mode', dict(mode='ocb', bl=16, n=n, dec=dec)))
